@@ -293,11 +293,11 @@ CRATES = {
 def kani_group(crate, harnesses, scratch, jobs, tier):
     """Run a list of harness dicts of one crate in a single cargo-kani invocation."""
     cdir = os.path.join(scratch, 'repo', CRATES[crate]['dir'])
-    tgt = os.path.join(CACHE, 'target-' + crate)
     flags = set()
     for h in harnesses:
         for f in h.get('flags', []):
             flags.add(f)
+    tgt = os.path.join(CACHE, 'target-' + crate + ''.join('-' + f for f in sorted(flags)))
     tmo = max(h.get('timeout', 600) for h in harnesses)
     js_path = os.path.join(scratch, 'kani-%s-%d.json' % (crate, abs(hash(tuple(h['name'] for h in harnesses))) % 100000))
     cmd = ['cargo', 'kani', '-Z', 'unstable-options', '-Z', 'function-contracts', '-Z', 'stubbing']
@@ -397,22 +397,28 @@ def kani_replay(crate, h, scratch_root):
     os.makedirs(rdir, exist_ok=True)
     copy_repo(rdir, harness_dir=hdir)
     cdir = os.path.join(rdir, CRATES[crate]['dir'])
-    tgt = os.path.join(CACHE, 'target-' + crate)
+    tgt = os.path.join(CACHE, 'target-' + crate + ''.join('-' + f for f in sorted(h.get('flags', []))))
     cmd = ['cargo', 'kani', '-Z', 'unstable-options', '-Z', 'function-contracts', '-Z', 'stubbing', '-Z', 'concrete-playback']
     for f in h.get('flags', []):
         cmd += ['-Z', f]
-    cmd += ['--target-dir', tgt, '--exact', '--harness', h['full'], '--concrete-playback=inplace',
+    cmd += ['--target-dir', tgt, '--exact', '--harness', h['full'], '--concrete-playback=print',
             '--harness-timeout', '%ds' % h.get('timeout', 600)]
     rc, o, e, w = sh(cmd, cwd=cdir, timeout=h.get('timeout', 600) + 600)
     out['kani_output_tail'] = (o + e)[-3000:]
-    # find the generated test
+    # the printed unit test
+    m = re.search(r'(#\[test\]\s*fn (kani_concrete_playback_[A-Za-z0-9_]+)\(\)\s*\{.*?\n\s*\})\s*\n\s*```', o + e, flags=re.S)
+    if not m:
+        m = re.search(r'(#\[test\]\s*fn (kani_concrete_playback_[A-Za-z0-9_]+)\(\)\s*\{.*?kani::concrete_playback_run\([^;]*;\s*\})', o + e, flags=re.S)
     src = None
-    for root, _, files in os.walk(hdir):
-        for fn in files:
-            s = open(os.path.join(root, fn)).read()
-            m = re.search(r'#\[test\]\s*fn (kani_concrete_playback_[A-Za-z0-9_]+)\(\)\s*\{.*?\n\}', s, flags=re.S)
-            if m:
-                src = (m.group(1), m.group(0))
+    if m:
+        src = (m.group(2), m.group(1))
+        # append it to the (private copy of the) harness file that defines the harness
+        for root, _, files in os.walk(hdir):
+            for fn in files:
+                fp = os.path.join(root, fn)
+                s_ = open(fp).read()
+                if re.search(r'\b' + re.escape(h['name']) + r'\b', s_):
+                    open(fp, 'w').write(s_ + '\n' + src[1] + '\n')
     if not src:
         return out
     out['found'] = True
@@ -499,12 +505,12 @@ def main(argv):
                 futures[ex.submit(verus_unit, u['unit'], scratch)] = ('verus', u)
             by_crate = {}
             for h in kani_hs:
-                by_crate.setdefault(h['crate'], []).append(h)
+                # one cargo-kani invocation per (crate, flag set): flags change how the whole crate is compiled
+                by_crate.setdefault((h['crate'], tuple(sorted(h.get('flags', [])))), []).append(h)
             if by_crate:
                 copy_repo(os.path.join(scratch, 'repo'))
             ncr = max(1, len(by_crate))
-            for crate, hs in by_crate.items():
-                # heavy harnesses get their own invocation? no: one build per crate, -j inside
+            for (crate, _fl), hs in by_crate.items():
                 futures[ex.submit(kani_group, crate, hs, scratch, max(1, 14 // ncr), tier)] = ('kani', (crate, hs))
             for fut in cf.as_completed(futures):
                 kind, meta = futures[fut]
@@ -631,9 +637,16 @@ def write_violation(prop, viols, scratch, tier):
     """Write the replay file.  For Kani failures replay the concrete counterexample natively;
     for Verus failures run the paired counterexample-search harnesses."""
     rep = {'property': prop, 'tier': tier, 'time': time.strftime('%Y-%m-%dT%H:%M:%S'), 'violations': []}
+    replays_done = 0
     for oid, det in viols:
         entry = {'obligation': oid, 'backend': det['backend']}
+        if det['backend'] == 'kani' and replays_done >= 2:
+            entry['failed_checks'] = det['failed_checks']
+            entry['replay'] = {'found': False, 'skipped': 'replay budget: first two violations of this run are replayed'}
+            rep['violations'].append(entry)
+            continue
         if det['backend'] == 'kani':
+            replays_done += 1
             h = det['harness']
             entry['failed_checks'] = det['failed_checks']
             try:
